@@ -539,4 +539,143 @@ theorem start_WK (ppOf : Int → Nat → Nat) (script : List Reply) (q : Qry) :
   have h := startIter_K (fun _ _ => script) ppOf env0 q
   exact h
 
+/-- every page an executeQuery returns starts at position 0 -/
+theorem connExec_pos0 (pp : Nat → Nat) : ∀ (script : List Reply) (c : Bool) (q : Qry), (connExec pp script c q).iter.pos = 0 := by
+  intro script
+  induction script with
+  | nil => intro c q; rfl
+  | cons r rest ih =>
+    intro c q
+    cases r with
+    | unprepared => simpa [connExec] using ih false q
+    | fail f => rfl
+    | page rows st => rfl
+
+/-! ### the converse: Iter.Scan launches the prefetch as soon as the threshold is passed -/
+
+/-- walks through Iter.Scan / MapScan only, with observers and the scheduler (no Scanner strides, no probes) -/
+def scanOnly : Step → Prop
+  | .scan .scan _ => True
+  | .observe => True
+  | .arrive => True
+  | _ => False
+
+def CInv (w : W) : Prop :=
+  (w.async = .idle ∨ w.async = .launched) ∧
+  (∀ n, w.it.cur.err = none → w.it.cur.next = some n → n.pos < w.it.cur.pos → w.async = .launched)
+
+theorem trigger_scan (c : Iter) (n : NextIter) (a : Async) (hn : c.next = some n) :
+    trigger .scan c a = if n.pos < c.pos ∧ a = .idle then .launched else a := by
+  simp [trigger, hn]
+
+theorem scanRow_err (c c' : Iter) (r : Int) (h : scanRow c = some (r, c')) : c.err = none ∧ c'.err = none := by
+  unfold scanRow at h
+  cases he : c.err with
+  | some e => simp [he] at h
+  | none =>
+    simp only [he] at h
+    cases hr : c.rows[c.pos]? with
+    | none => simp [hr] at h
+    | some r' =>
+      simp only [hr] at h
+      injection h with h; injection h with h1 h2
+      subst h2
+      exact ⟨rfl, rfl⟩
+
+theorem scan1_cinv (ppOf : Int → Nat → Nat) (w : W) (hw : CInv w) : CInv (scan1 ppOf .scan w).1 := by
+  unfold scan1
+  have hfuel : scanFuel w.it = (w.it.rest.length + 2) + 1 := rfl
+  cases hl : leaves w.it with
+  | true =>
+    simp only [if_true]
+    cases hb : (scanF ppOf (scanFuel w.it) w.env w.it).2.2 with
+    | true =>
+      simp only [if_true]
+      refine ⟨?_, ?_⟩
+      · rcases trigger_cases .scan (scanF ppOf (scanFuel w.it) w.env w.it).1.cur Async.idle with ht | ⟨_, ht, _⟩
+        · left; exact ht
+        · right; exact ht
+      · intro n _ hn hlt
+        rw [trigger_scan _ n _ hn]
+        simp [hlt]
+    | false =>
+      simp only [Bool.false_eq_true, if_false]
+      refine ⟨Or.inl rfl, ?_⟩
+      intro n he hn _
+      have hfin : finished (scanF ppOf (scanFuel w.it) w.env w.it).1 := scanF_fuel ppOf w.env w.it hb
+      unfold finished at hfin
+      rcases hfin with h | ⟨_, h⟩
+      · rw [he] at h; cases h
+      · rw [h] at hn; cases hn
+  | false =>
+    rw [hfuel, scanF_stays ppOf _ w.env w.it hl]
+    simp only [Bool.false_eq_true, if_false]
+    cases hs : scanRow w.it.cur with
+    | none => exact hw
+    | some rc =>
+      obtain ⟨r, c'⟩ := rc
+      have hc := scanRow_next _ _ _ hs
+      have he := scanRow_err _ _ _ hs
+      simp only [if_true]
+      refine ⟨?_, ?_⟩
+      · rcases trigger_cases .scan c' w.async with ht | ⟨_, ht, _⟩
+        · rw [ht]; exact hw.1
+        · right; exact ht
+      · intro n _ hn hlt
+        show trigger .scan c' w.async = .launched
+        rw [trigger_scan _ n _ hn]
+        rcases hw.1 with ha | ha
+        · simp [hlt, ha]
+        · simp [ha]
+
+theorem scanK_cinv (ppOf : Int → Nat → Nat) : ∀ (k : Nat) (w : W), CInv w → CInv (scanK ppOf .scan k w).1 := by
+  intro k
+  induction k with
+  | zero => intro w hw; exact hw
+  | succ k ih =>
+    intro w hw
+    unfold scanK
+    have h1 := scan1_cinv ppOf w hw
+    simp only []
+    split
+    · exact ih _ h1
+    · exact h1
+
+theorem exec_cinv (ppOf : Int → Nat → Nat) : ∀ (steps : List Step) (w : W), CInv w → (∀ s ∈ steps, scanOnly s) →
+    CInv (exec ppOf w steps) := by
+  intro steps
+  induction steps with
+  | nil => intro w hw _; exact hw
+  | cons s rest ih =>
+    intro w hw hs
+    apply ih _ _ (fun x hx => hs x (by simp [hx]))
+    have h1 := hs s (by simp)
+    cases s with
+    | scan api k =>
+      cases api with
+      | scan => exact scanK_cinv ppOf k w hw
+      | scanner => exact absurd h1 (by simp [scanOnly])
+    | observe => exact hw
+    | await => exact absurd h1 (by simp [scanOnly])
+    | arrive =>
+      show CInv (arrive ppOf w)
+      unfold arrive
+      split
+      · refine ⟨hw.1, ?_⟩
+        intro n he hn hlt
+        simp only [force_cur] at he hn hlt
+        exact hw.2 n he hn hlt
+      · exact hw
+
+theorem start_cinv (ppOf : Int → Nat → Nat) (script : List Reply) (q : Qry) : CInv (start ppOf script q) := by
+  refine ⟨Or.inl rfl, ?_⟩
+  intro n _ _ hlt
+  have hp : (start ppOf script q).it.cur.pos = 0 := by
+    have hc := sessExec_alive ppOf env0 rfl script q
+    show (startIter (fun _ _ => script) ppOf env0 q).1.cur.pos = 0
+    simp only [startIter, hc.1]
+    exact connExec_pos0 (ppOf q.pf) script env0.cached q
+  rw [hp] at hlt
+  exact absurd hlt (Nat.not_lt_zero _)
+
 end Paging.Walk
